@@ -30,11 +30,14 @@ class TableCost(BaseCost):
 
     evaluation_type = "multivariate"
 
-    def __init__(self, table=None, msize=1, tag=None, param=None, int_output=False):
+    def __init__(self, table=None, msize=1, tag=None, param=None, int_output=False, memo=None):
         self.table = table
         self.msize = msize
         self.tag = tag
         self.int_output = int_output  # a user cost may well return an integer-typed array (counts)
+        # "cache": results are memoised per cuts batch and the SAME array object is handed out again (an expensive user cost
+        # with a cache); "readonly": the result is a read-only array. Either way the array belongs to the user's cost.
+        self.memo = memo
         super().__init__(param)
 
     @property
@@ -46,11 +49,20 @@ class TableCost(BaseCost):
 
     def _fit(self, X, y=None):
         self._t = np.asarray(self.table, dtype=np.int64 if self.int_output else float)
+        self._cache = {}
         return self
 
     def _evaluate_optim_param(self, starts, ends):
         _count(self.tag, len(starts))
-        return self._t[starts, ends].reshape(-1, 1)
+        if self.memo == "cache":
+            key = (np.asarray(starts).tobytes(), np.asarray(ends).tobytes())
+            if key not in self._cache:
+                self._cache[key] = self._t[starts, ends].reshape(-1, 1)
+            return self._cache[key]
+        out = self._t[starts, ends].reshape(-1, 1)
+        if self.memo == "readonly":
+            out.setflags(write=False)
+        return out
 
     def _evaluate_fixed_param(self, starts, ends):
         return self._evaluate_optim_param(starts, ends)
